@@ -43,18 +43,21 @@ class _Gen:
             M.Event('Use', 'in', M.Ref(['void']), who()),
             M.Event('Done', 'out', M.Ref(['void']), [M.Formal('tag', M.Ref(['Id'], 'Arb.Id'), 'in')])])
         self.ext = M.Extern(['Id'], '::vx::T0')
-        self.comp = M.Component(['Hub'], [M.Port('api', M.Ref(['IArb'], 'Arb.IArb'), 'provides')])
-        self.model = M.Model([M.Namespace(['Arb'], [self.ext, self.itf, self.comp])])
+        # a second, plain provides port declared after the multi-client one (its interface has
+        # no out-events): the multi-client port is not the last rerouted provides port
+        self.ctl = M.Interface(['ICtl'], [], [M.Event('Ping', 'in', M.Ref(['void']), [])])
+        self.comp = M.Component(['Hub'], [M.Port('api', M.Ref(['IArb'], 'Arb.IArb'), 'provides'),
+                                          M.Port('ctl', M.Ref(['ICtl'], 'Arb.ICtl'), 'provides')])
+        self.model = M.Model([M.Namespace(['Arb'], [self.ext, self.itf, self.ctl, self.comp])])
         self.enums = [(['Arb', 'IArb', 'Result'], self.enum)]
-        self.interfaces = [(['Arb', 'IArb'], self.itf, None)]
+        self.interfaces = [(['Arb', 'IArb'], self.itf, None), (['Arb', 'ICtl'], self.ctl, None)]
         self.components = [(['Arb', 'Hub'], self.comp, None)]
 
     def decls(self):
         return M.declared_names(self.model)
 
     def interface_by_fqn(self, dotted):
-        assert dotted == 'Arb.IArb'
-        return self.itf
+        return {'Arb.IArb': self.itf, 'Arb.ICtl': self.ctl}[dotted]
 
 
 ENC = {'encapsulee': 'Arb.Hub', 'filename': 'Arb.dzn', 'suffix': 'Shell',
